@@ -137,7 +137,13 @@ func (task *genericTask) NextAction(ctx context.Context, flow Flow) chan IAction
 		response:    response,
 	}
 
-	task.mch <- msg
+	select {
+	case task.mch <- msg:
+	case <-ctx.Done():
+		// the node's loop has ended with its context and the inbox is full (more tokens
+		// than it holds arrived since): the flow, which watches the same context, gets a
+		// channel on which no action ever arrives
+	}
 	return response
 }
 
